@@ -57,7 +57,10 @@ Dev(d) == d \in Deviations
 (* Value sources: where an author string can enter an output document      *)
 (***************************************************************************)
 AttrSources == {"attr", "var-in-attr", "expr-string", "style-attr", "cfg-svg-style", "cfg-font", "cfg-background",
-                "g-attr", "reuse-attr", "debug-original"}
+                "g-attr", "reuse-attr", "debug-original", "class-attr", "class-var"}
+\* longer strings over the characters that matter inside comments (dashes next to
+\* characters the debug rendition strips)
+DashStrs == UNION {[1..k -> {"-", ">", "<", "Q"}] : k \in 3..4}
 TextSources == {"text-attr", "content", "text-element", "var-in-text", "cdata-content"}
 CommentSources == {"comment-attr", "raw-comment-attr", "input-comment"}
 
@@ -90,6 +93,8 @@ WfCases ==
     {[fam |-> "wf", kind |-> "attr", src |-> src, s |-> s, ser |-> WriteAttr(s)] : src \in AttrSources, s \in Strs(MaxLen)}
     \cup {[fam |-> "wf", kind |-> "text", src |-> src, s |-> s, ser |-> WriteText(src, s)] : src \in TextSources, s \in Strs(MaxLen)}
     \cup {[fam |-> "wf", kind |-> "comment", src |-> src, s |-> s, ser |-> s] : src \in CommentSources, s \in Strs(MaxLen)}
+    \cup {[fam |-> "wf", kind |-> "attr", src |-> src, s |-> s, ser |-> WriteAttr(s)] : src \in {"debug-original", "cfg-svg-style"}, s \in DashStrs}
+    \cup {[fam |-> "wf", kind |-> "comment", src |-> src, s |-> s, ser |-> s] : src \in {"comment-attr", "raw-comment-attr"}, s \in DashStrs}
 
 \* the design's obligations for every case
 WellFormed ==
@@ -110,6 +115,17 @@ LineCases ==
         car \in {"text-attr", "content", "cdata-content", "text-element"},
         s \in UNION {[1..k -> {"a", " ", "&", "<", "Q", "N", "B", "n", "e"}] : k \in 0..MaxLen}}
 
+\* structured multi-line strings: 2-3 lines drawn from line kinds (empty,
+\* blank, leading / trailing blanks, specials), joined by a literal newline or
+\* by the two-character escape
+LineKinds == {<<>>, <<" ">>, <<" ", " ">>, <<"a">>, <<" ", "a">>, <<"a", " ">>, <<"a", " ", "e">>, <<"&", "<">>}
+JoinWith(ls, sep) == IF Len(ls) = 2 THEN ls[1] \o sep \o ls[2] ELSE ls[1] \o sep \o ls[2] \o sep \o ls[3]
+LineCases2 ==
+    {[fam |-> "lines", carrier |-> car, s |-> JoinWith(ls, sep), lines |-> Lines(JoinWith(ls, sep))] :
+        car \in {"text-attr", "content", "cdata-content", "text-element"},
+        ls \in {<<x, y>> : x \in LineKinds, y \in LineKinds} \cup {<<x, y, z>> : x \in {<<"a">>, <<>>}, y \in LineKinds, z \in {<<"a">>, <<" ">>}},
+        sep \in {<<"N">>, <<"B", "n">>}}
+
 RECURSIVE Join(_)
 Join(ls) == IF Len(ls) = 1 THEN ls[1] ELSE ls[1] \o <<"N">> \o Join(Tail(ls))
 LinesOK ==
@@ -117,6 +133,8 @@ LinesOK ==
         /\ Len(c.lines) >= 1
         \* without the escape sequence, joining the lines with newlines gives the string back
         /\ (\A i \in 1..Len(c.s) : c.s[i] # "B") => Join(c.lines) = c.s
+        \* a blank line is a line: nothing but the separators is removed
+        /\ \A i \in 1..Len(c.lines) : \A j \in 1..Len(c.lines[i]) : c.lines[i][j] # "N"
 
 (***************************************************************************)
 (* Document shapes for the root rule (C02) and pass-through (C03)          *)
@@ -131,7 +149,7 @@ RootCases ==
       passthrough |-> n, rootok |-> TRUE] :
         p \in Prologs, ks \in KidLists, n \in BOOLEAN}
 
-Cases == CASE Family = "wf" -> WfCases [] Family = "lines" -> LineCases [] Family = "root" -> RootCases [] OTHER -> {}
+Cases == CASE Family = "wf" -> WfCases [] Family = "lines" -> LineCases \cup LineCases2 [] Family = "root" -> RootCases [] OTHER -> {}
 Init == c \in Cases
 Next == UNCHANGED c
 Spec == Init /\ [][Next]_c
